@@ -76,8 +76,10 @@ def impl(case):
             common.apply_past(ds, sch, case["past"],
                               extra_query=lambda: (PairwiseBasedAlgorithm.pairwise_cost_matrix(ds.get_positions(), sch),
                                                    PairwiseBasedAlgorithm.pairwise_cost_matrix(ds.get_bucket_ids(), sch)))
-            left = {e.value for e in ds.universe}
-            candidate = [b2 for b2 in ([x for x in b if x in left] for b in candidate) if b2]
+            # the dataset may have re-homogenised its element types (int-like names left alone become ints)
+            left = {str(e.value) for e in ds.universe}
+            kept = dict(case, candidate=[b2 for b2 in ([x for x in b if str(x) in left] for b in case["candidate"]) if b2])
+            candidate = _conv_candidate(kept, ds)
         obs = lib.observe_dataset(ds, coder)
         s = case["scheme"]["scale"]
         univ = [coder.code(ds.mapping_id_elem[i].value) for i in range(ds.nb_elements)]
